@@ -401,6 +401,9 @@ func genVerifierCases(o *hx.Out, rng *hx.Rng, n int) {
 		}
 	}
 
+	// ---- BLS: special points next to valid ones
+	genBLSMatrix(rng, put)
+
 	// ---- SMT proofs
 	h32 := func(b byte) []byte { return bytes.Repeat([]byte{b}, 32) }
 	for i := 0; i < n*40; i++ {
